@@ -1,14 +1,28 @@
 """C11 - ergodic trimming keeps exactly the heaviest strongly connected component."""
-from pyvc.runner import Run, resolve_failures
+from pyvc.runner import Run, Unit, resolve_failures
+from contracts import trim as CT
+
+TMF = 'enspara/msm/transition_matrices.py'
+MUT = [('column-sums', TMF, "    pops = counts.sum(axis=1)", "    pops = counts.sum(axis=0)"),
+       ('weight-from-thresholded', TMF, "    pops = counts.sum(axis=1)", "    pops = thresholded_counts.sum(axis=1)"),
+       ('mapping-inverted', TMF, "        mapping = TrimMapping(zip(keep_states,\n                              range(len(trimmed_counts))))", "        mapping = TrimMapping(zip(np.arange(len(trimmed_counts)),\n                              keep_states))"),
+       ('argmin-component', TMF, "    maxpop_subgraph = np.argmax(subgraph_pops)", "    maxpop_subgraph = np.argmin(subgraph_pops)"),
+       ('columns-not-zeroed', TMF, "        trimmed_counts[:, trim_states] = 0\n", "")]
 
 
 def run(tier, seed, update_lock=False):
     R = Run('C11', 'other', tier, seed)
+    units = [Unit('trim[renumber]', CT.registry(True), mutants=MUT[:4]), Unit('trim[in-place]', CT.registry(False), mutants=MUT[4:])]
+    for u in units:
+        R.prove(u)
+    for u in units:
+        R.canary_check(u)
     R.bounded('C11.py', 'run-time contracts (the statement, with an independent SCC computation) on the real trim_disconnected / MSM.fit',
               'all 3x3 count matrices over {0,1,3} (strided in quick), seeded 4-5 state matrices, thresholds 1..3, renumber on/off, ndarray + 7 sparse containers + duplicate-coordinate COO')
     R.report_known('C11.py')
     resolve_failures(R, 'C11.py', lambda f: None)
-    R.clauses = [{'clause': 'kept set = a strongly connected component (w.r.t. counts >= threshold) of largest total original row count; trimmed is strongly connected; counts between kept states preserved; none on removed states', 'status': 'bounded'},
+    R.clauses = [{'clause': 'dense branch, given SciPy\'s SCC labelling of the thresholded graph: kept states are exactly the first heaviest component by original row totals, strictly increasing; renumbered counts = counts[keep x keep] with the order-preserving mapping; in-place variant zeroes exactly the removed rows and columns with the identity mapping; caller\'s matrix unchanged', 'status': 'proved (SMT on the real trim_disconnected, both variants)'},
+                 {'clause': 'kept set = a strongly connected component (w.r.t. counts >= threshold) of largest total original row count; trimmed is strongly connected; counts between kept states preserved; none on removed states', 'status': 'bounded'},
                  {'clause': 'mapping is an order-preserving bijection new<->original; renumbered and in-place variants describe the same model; dense = sparse; container type kept; fitted model reports the mapping', 'status': 'bounded'}]
     R.assumptions += ['SCC oracle in the contract: mutual reachability by boolean matrix closure (independent of scipy.sparse.csgraph)']
-    return R.finish('Bounded stand-in in this run; deductive obligations for trim_disconnected (given SciPy\'s SCC labelling as an assumed primitive contract) are planned (DESIGN 4 C11).', update_lock=update_lock)
+    return R.finish('Deductive: trim_disconnected on dense input modulo SciPy\'s connected_components (assumed contract; the bounded driver checks it against an independent SCC computation). Bounded: the whole statement incl. sparse containers and the fitted estimator.', update_lock=update_lock)
